@@ -25,19 +25,34 @@ KEY_TYPES = [rv.T("nat"), rv.T("string"), rv.T("pair", rv.T("nat"), rv.T("string
              rv.T("bytes"), rv.pair_t(rv.T("nat"), rv.T("nat"), rv.T("nat"), rv.T("nat")), rv.T("key_hash"), rv.T("address")]
 
 
+VTS = {"nat": rv.T("nat"), "string": rv.T("string"), "list": rv.T("list", rv.T("nat")), "option": rv.T("option", rv.T("nat"))}
+
+
+def val_of(vname, n):
+    """typed reference value for the generated integer n; except for nat, n % 3 == 0 gives the type's falsy inhabitant"""
+    if vname == "nat":
+        return n
+    if vname == "string":
+        return "" if n % 3 == 0 else "s%d" % n
+    if vname == "list":
+        return [] if n % 3 == 0 else [n]
+    return None if n % 3 == 0 else ("Some", n)
+
+
 def key_hash(kt, k):
     return rc.tz_encode(blake2b(rv.pack(kt, k, legacy=True), digest_size=32).digest(), "expr")
 
 
-def build_code(kt, ops, keys):
+def build_code(kt, ops, keys, vname="nat", where="storage"):
+    VT = VTS[vname]
     optv = rv.T("option", VT)
     log_t = rv.T("or", optv, rv.T("bool"))
-    code = [{"prim": "CDR"}, {"prim": "UNPAIR"}]
+    code = [{"prim": "CDR"}, {"prim": "UNPAIR"}] if where == "storage" else [{"prim": "UNPAIR"}]
     tail = [{"prim": "DIG", "args": [{"int": "2"}]}, {"prim": "SWAP"}, {"prim": "CONS"}, {"prim": "SWAP"}]
     for op in ops:
         k = interp.push(kt, rv.to_micheline(kt, keys[op["key"]]))
         val = op.get("val")
-        ov = interp.push(optv, {"prim": "None"} if val is None else {"prim": "Some", "args": [{"int": str(val)}]})
+        ov = interp.push(optv, {"prim": "None"} if val is None else {"prim": "Some", "args": [rv.to_micheline(VT, val_of(vname, val))]})
         if op["op"] == "UPDATE":
             code += [ov, k, {"prim": "UPDATE"}]
         elif op["op"] == "GET":
@@ -46,6 +61,10 @@ def build_code(kt, ops, keys):
             code += [{"prim": "DUP"}, k, {"prim": "MEM"}, {"prim": "RIGHT", "args": [optv]}] + tail
         else:
             code += [ov, k, {"prim": "GET_AND_UPDATE"}, {"prim": "LEFT", "args": [rv.T("bool")]}] + tail
+    if where == "parameter":  # the big_map came in as the parameter (by identifier); only the observations are kept
+        code += [{"prim": "DROP"}, {"prim": "NIL", "args": [rv.T("operation")]}, {"prim": "PAIR"}]
+        return [{"prim": "parameter", "args": [rv.T("big_map", kt, VT)]}, {"prim": "storage", "args": [rv.T("list", log_t)]},
+                {"prim": "code", "args": [code]}], log_t
     code += [{"prim": "PAIR"}, {"prim": "NIL", "args": [rv.T("operation")]}, {"prim": "PAIR"}]
     storage_t = rv.T("pair", rv.T("big_map", kt, VT), rv.T("list", log_t))
     return [{"prim": "parameter", "args": [rv.T("unit")]}, {"prim": "storage", "args": [storage_t]},
@@ -55,6 +74,10 @@ def build_code(kt, ops, keys):
 def oracle(case):
     from pytezos.michelson.repl import Interpreter
     kt = case["kt"]
+    vname, where = case.get("vt", "nat"), case.get("where", "storage")
+    VT = VTS[vname]
+    V = lambda n: val_of(vname, n)  # noqa: E731
+    vm = lambda n: rv.to_micheline(VT, val_of(vname, n))  # noqa: E731
     keys = [rv.from_micheline(kt, k) for k in case["keys"]]
     node = fake_node.FakeNode()
     chain = {}        # key index -> value, content of the on-chain big map
@@ -62,18 +85,18 @@ def oracle(case):
     if case["on_chain"] is not None:
         bm_id = 42
         chain = {int(i): v for i, v in case["on_chain"].items()}
-        node.big_maps[42] = {key_hash(kt, keys[i]): {"int": str(v)} for i, v in chain.items()}
+        node.big_maps[42] = {key_hash(kt, keys[i]): vm(v) for i, v in chain.items()}
     model = dict(chain)
     if bm_id is None:
         model = {int(i): v for i, v in case["literal"].items()}
     nontrivial = False
     for call_no, ops in enumerate(case["calls"]):
-        script, log_t = build_code(kt, ops, keys)
+        script, log_t = build_code(kt, ops, keys, vname, where)
         if bm_id is not None:
             bm_storage = {"int": str(bm_id)}
         else:
             ids = sorted(model, key=lambda i: None) if False else rv.sort_values(kt, [keys[i] for i in model])
-            bm_storage = [{"prim": "Elt", "args": [rv.to_micheline(kt, k), {"int": str(model[keys.index(k)])}]} for k in ids]
+            bm_storage = [{"prim": "Elt", "args": [rv.to_micheline(kt, k), vm(model[keys.index(k)])]} for k in ids]
         storage = {"prim": "Pair", "args": [bm_storage, []]}
         # expected observations
         expected, m = [], dict(model)
@@ -81,12 +104,12 @@ def oracle(case):
         for op in ops:
             i = op["key"]
             if op["op"] == "GET":
-                expected.append(("Left", ("Some", m[i]) if i in m else None))
+                expected.append(("Left", ("Some", V(m[i])) if i in m else None))
             elif op["op"] == "MEM":
                 expected.append(("Right", i in m))
             else:
                 if op["op"] == "GET_AND_UPDATE":
-                    expected.append(("Left", ("Some", m[i]) if i in m else None))
+                    expected.append(("Left", ("Some", V(m[i])) if i in m else None))
                 if i in chain and i not in removed and op.get("val") is not None:
                     nontrivial = True  # update of a key that so far exists only on chain
                 if op.get("val") is None:
@@ -98,8 +121,12 @@ def oracle(case):
                         nontrivial = True
                     m[i] = op["val"]
         try:
-            res = Interpreter.run_code(parameter={"prim": "Unit"}, storage=storage, script=script,
-                                       shell=fake_node.shell(node), output_mode="optimized")
+            if where == "parameter":
+                res = Interpreter.run_code(parameter={"int": str(bm_id)}, storage=[], script=script,
+                                           shell=fake_node.shell(node), output_mode="optimized")
+            else:
+                res = Interpreter.run_code(parameter={"prim": "Unit"}, storage=storage, script=script,
+                                           shell=fake_node.shell(node), output_mode="optimized")
         except Exception as e:
             raise Violation("run_code raised %r (call %d, ops %s)" % (e, call_no, ops), case, "run_code-raise")
         operations, new_storage, lazy_diff, stdout, err = res
@@ -108,8 +135,12 @@ def oracle(case):
                             "contract-failed:" + str(err.args[0]))
         st_t = rv.T("pair", rv.T("nat") if True else None, rv.T("list", log_t))
         try:
-            ptr = int(new_storage["args"][0]["int"])
-            log = rv.from_micheline(rv.T("list", log_t), new_storage["args"][1])
+            if where == "parameter":
+                ptr = None
+                log = rv.from_micheline(rv.T("list", log_t), new_storage)
+            else:
+                ptr = int(new_storage["args"][0]["int"])
+                log = rv.from_micheline(rv.T("list", log_t), new_storage["args"][1])
         except Exception as e:
             raise Violation("unexpected storage shape %s (%r)" % (new_storage, e), case, "storage-shape")
         log = list(reversed(log))
@@ -118,6 +149,8 @@ def oracle(case):
             raise Violation("observation #%d differs: got %s, layered-dict model %s; call %d ops %s; on-chain %s" % (
                 j, log[j] if j < len(log) else None, expected[j] if j < len(expected) else None, call_no, ops, chain), case,
                 "observation:" + _obs_kind(ops, j))
+        if where == "parameter":
+            continue  # the map was dropped: nothing is stored, the same on-chain map is read again by the next call
         # apply the lazy diff as a mapping
         diffs = [d for d in lazy_diff if d.get("kind") == "big_map"]
         if len(diffs) != 1:
@@ -147,24 +180,24 @@ def oracle(case):
             if u.get("key_hash") != want_h:
                 raise Violation("key_hash of %s is %s, Tezos script-expr hash of the packed key is %s" % (
                     u["key"], u.get("key_hash"), want_h), case, "key-hash")
-            val = int(u["value"]["int"]) if u.get("value") is not None else None
+            val = ("v", rv.from_micheline(VT, u["value"])) if u.get("value") is not None else None
             if i in seen and seen[i] != val:
                 raise Violation("diff has contradicting entries for key %s: %s then %s" % (u["key"], seen[i], val), case,
                                 "diff-contradiction")
             seen[i] = val
-        final = dict(base)
+        final = {i: V(n) for i, n in base.items()}
         for i, val in seen.items():
             if val is None:
                 final.pop(i, None)
             else:
-                final[i] = val
-        if final != m:
+                final[i] = val[1]
+        if final != {i: V(n) for i, n in m.items()}:
             raise Violation("lazy diff applied to the on-chain content gives %s, model final dict %s (on-chain %s, "
                             "action %s, ops %s, updates %s)" % (final, m, base, action, ops, d["diff"]["updates"]), case,
                             "diff-final:" + action)
         # commit to the fake chain for the next call
         chain, model, bm_id = dict(m), dict(m), ptr
-        node.big_maps[ptr] = {key_hash(kt, keys[i]): {"int": str(v)} for i, v in chain.items()}
+        node.big_maps[ptr] = {key_hash(kt, keys[i]): vm(v) for i, v in chain.items()}
     return nontrivial
 
 
@@ -200,7 +233,8 @@ def cases(draw, max_ops):
         return out
     calls = [ops() for _ in range(draw(st.sampled_from([1, 1, 2, 3])))]
     return {"kt": kt, "keys": [rv.to_micheline(kt, k) for k in keys], "on_chain": content if on_chain else None,
-            "literal": {} if on_chain else content, "calls": calls}
+            "literal": {} if on_chain else content, "calls": calls, "vt": draw(st.sampled_from(["nat", "nat", "string", "list", "option"])),
+            "where": "parameter" if on_chain and draw(st.integers(0, 3)) == 0 else "storage"}
 
 
 def _prop(case, stats):
